@@ -1,7 +1,7 @@
 """Shared by C08 / C09 / C10: conditions over vf/harness/HDR.py and replay on the real code."""
 from .. import xh
 
-REPS = ["PythonCommentStyle", "CCommentStyle", "CppCommentStyle", "HtmlCommentStyle", "LispCommentStyle", "JuliaCommentStyle", "EmptyCommentStyle", "TexCommentStyle"]
+REPS = ["PythonCommentStyle", "CCommentStyle", "HtmlCommentStyle", "JuliaCommentStyle", "CppCommentStyle", "LispCommentStyle", "EmptyCommentStyle", "TexCommentStyle"]
 
 
 def style_forms():
@@ -27,7 +27,7 @@ def conditions(func, tier, carve, replace_modes=(True,), merge_modes=(False,), t
     for name, multi in style_forms():
         for replace in replace_modes:
             for merge in merge_modes:
-                deep = name in REPS
+                deep = name in (REPS[:4] if tier == "quick" else REPS)
                 if tier == "quick":
                     n = 3 if deep and replace and not merge else 2
                 else:
@@ -60,7 +60,7 @@ def annotate_real(text, style, multi, replace=True, merge=False, request="full")
 
 BOUNDS = {
     "styles": "every comment style class x {single, multi} where supported",
-    "body": "2 body items for every style, 3 for eight representative styles (thorough: 3 / 4): each item blank, white-space only, code, indented code, comment in the file's style, comment in a foreign style, an existing REUSE header written by the tool itself in that style, a shebang-like first line, or absent; with and without a final newline",
+    "body": "2 body items for every style, 3 for four representative styles (thorough: 3 for every style, 4 for eight): each item blank, white-space only, code, indented code, comment in the file's style, comment in a foreign style, an existing REUSE header written by the tool itself in that style, a shebang-like first line, or absent; with and without a final newline",
     "request": "one copyright notice, one licence expression, one contributor (concrete); default template",
 }
 STUBS = ["module-level patterns wrapped in PyRe (concrete subjects go to the real compiled pattern)", "licence parsing native"]
